@@ -121,7 +121,8 @@ def run_config(chk, facts, cfg):
                 for e in p[1]:
                     if isinstance(e, list) and e[0] == "f" and len(e) > 3 and e[3] == OID:
                         n_reads += 1
-                        ok = bool(derived) or b.path == "write_fonts::graph::ObjectId::next"
+                        # feature dot2: node labels of a debug .dot rendering, not font bytes
+                        ok = bool(derived) or b.path == "write_fonts::graph::ObjectId::next" or b.file.endswith("graph/graphviz.rs")
                         chk.ob("C07-b", f"ObjectId.0 accessed in {b.path} (derived impl)" if ok else f"ObjectId.0 accessed in {b.path}", ok,
                                key=f"oid-read|{b.path}", file=b.file, line=st[3][0], fn=b.path,
                                detail="the numeric value of an object id is process-history dependent; only Ord/Eq/Hash (derived) may see it")
@@ -234,7 +235,7 @@ def run_config(chk, facts, cfg):
             for bb, t in b.calls():
                 ncalls += 1
                 if FORBID.search(t.callee):
-                    allowed_dot = "graphviz" in b.file
+                    allowed_dot = "graphviz" in b.file or b.path.endswith("Graph::write_graph_viz")
                     chk.ob("C07-d", f"{b.path} calls {t.callee}", allowed_dot, why="debug rendering to a .dot file (feature dot2), not font bytes",
                            key=f"forbid|{b.path}|{t.callee}", file=b.file, line=t.line, fn=b.path,
                            detail="observation of time / environment / randomness in a compilation path")
